@@ -22,6 +22,7 @@ type stratCfg struct {
 	Kinds    []QK
 	Pop      [][]int // initial priorities per queue
 	Adds     [][2]int // interleaved submissions: (after how many dispatches, queue)
+	Binds    [][2]int // further queues bound in the middle of the run: (after how many dispatches, kind)
 }
 
 var stratNames = []string{"RoundRobin", "MaxLen", "MinLen"}
@@ -31,7 +32,7 @@ func (c stratCfg) String() string {
 	for i, k := range c.Kinds {
 		ks = append(ks, fmt.Sprintf("%s:%d", k, len(c.Pop[i])))
 	}
-	return fmt.Sprintf("strategy=%s queues=[%s] interleaved=%d", stratNames[c.Strategy], strings.Join(ks, " "), len(c.Adds))
+	return fmt.Sprintf("strategy=%s queues=[%s] interleaved=%d lateBinds=%v", stratNames[c.Strategy], strings.Join(ks, " "), len(c.Adds), c.Binds)
 }
 
 func drawStrat(r *Rng) stratCfg {
@@ -58,6 +59,12 @@ func drawStrat(r *Rng) stratCfg {
 			c.Adds = append(c.Adds, [2]int{r.Intn(total + 2), r.Intn(nq)})
 		}
 	}
+	if r.Chance(30) && total > 2 {
+		// binding another queue in the middle of a cycle must not disturb the order of the cycle
+		for i := 0; i < 1+r.Intn(2); i++ {
+			c.Binds = append(c.Binds, [2]int{1 + r.Intn(total-1), r.Intn(6)})
+		}
+	}
 	return c
 }
 
@@ -68,6 +75,7 @@ type sJob struct {
 func epStrat(c *RunCtx, cfg stratCfg) *Result {
 	e := NewEnv(c.Prop)
 	nq := len(cfg.Kinds)
+	kinds := append([]QK{}, cfg.Kinds...)
 	total := len(cfg.Adds)
 	for _, p := range cfg.Pop {
 		total += len(p)
@@ -101,7 +109,7 @@ func epStrat(c *RunCtx, cfg stratCfg) *Result {
 			owner[i] = qi
 			model[qi] = append(model[qi], &sJob{data: i, prio: prio, seq: seq})
 			seq++
-			if cfg.Kinds[qi].Priority() {
+			if kinds[qi].Priority() {
 				sort.SliceStable(model[qi], func(a, b int) bool {
 					if model[qi][a].prio != model[qi][b].prio {
 						return model[qi][a].prio < model[qi][b].prio
@@ -121,7 +129,7 @@ func epStrat(c *RunCtx, cfg stratCfg) *Result {
 			for qi := range model {
 				sum += len(model[qi])
 				if got := qs[qi].Base.NumPending(); got != len(model[qi]) {
-					e.Fail("C17", "pending-at-q", cfg.Kinds[qi].String(), fmt.Sprintf("%s: queue %d NumPending=%d, model %d", where, qi, got, len(model[qi])))
+					e.Fail("C17", "pending-at-q", kinds[qi].String(), fmt.Sprintf("%s: queue %d NumPending=%d, model %d", where, qi, got, len(model[qi])))
 				}
 			}
 			if got := s.W.NumPending(); got != sum {
@@ -176,7 +184,7 @@ func epStrat(c *RunCtx, cfg stratCfg) *Result {
 					}
 				}
 				if qi != want {
-					e.Fail("C15", "round-robin", cfg.Kinds[qi].String(), fmt.Sprintf("%s: took from queue %d (%s), round robin from cursor %d over lengths %v selects queue %d; order so far %v", where, qi, cfg.Kinds[qi], cursor, lens, want, order))
+					e.Fail("C15", "round-robin", kinds[qi].String(), fmt.Sprintf("%s: took from queue %d (%s), round robin from cursor %d over lengths %v selects queue %d; order so far %v", where, qi, kinds[qi], cursor, lens, want, order))
 					return false
 				}
 				cursor = (qi + 1) % nq
@@ -203,8 +211,8 @@ func epStrat(c *RunCtx, cfg stratCfg) *Result {
 			}
 			// head of that queue's order?
 			if head := model[qi][0]; head.data != cur {
-				e.Fail("C04", "wrong-job-dispatched", cfg.Kinds[qi].String(), fmt.Sprintf("%s: queue %d handed out job %d, its order says %d", where, qi, cur, head.data))
-				e.Fail("C15", "within-queue-order", cfg.Kinds[qi].String(), fmt.Sprintf("%s: queue %d handed out job %d, its order says %d", where, qi, cur, head.data))
+				e.Fail("C04", "wrong-job-dispatched", kinds[qi].String(), fmt.Sprintf("%s: queue %d handed out job %d, its order says %d", where, qi, cur, head.data))
+				e.Fail("C15", "within-queue-order", kinds[qi].String(), fmt.Sprintf("%s: queue %d handed out job %d, its order says %d", where, qi, cur, head.data))
 				return false
 			}
 			model[qi] = model[qi][1:]
@@ -217,9 +225,24 @@ func epStrat(c *RunCtx, cfg stratCfg) *Result {
 		synctest.Wait()
 		ok := observe("after resume")
 		for ok && running >= 0 {
+			for _, b := range cfg.Binds {
+				if b[0] == dispatched {
+					kind := QK(b[1])
+					var led *Ledger
+					if kind.Adapter() {
+						led = NewLedger(e, kind.Priority())
+					}
+					qs = append(qs, s.Bind(kind, led))
+					kinds = append(kinds, kind)
+					model = append(model, nil)
+					perQueue = append(perQueue, 0)
+					nq++
+					e.Ev("late-bind", kind.String())
+				}
+			}
 			for _, a := range cfg.Adds {
 				if a[0] == dispatched {
-					add(a[1], 0)
+					add(a[1]%nq, 0)
 				}
 			}
 			synctest.Wait()
